@@ -61,6 +61,7 @@ ObjVal(d, k) == d.o[ObjGet(d, k)].v
 \* observed JSON numbers below 2^18 as "num" and larger ones as "big" (abs.FromJSON); unit families that
 \* write small values as landmarks (C15: 2^7, 2^8, 2^15, 2^16 and 0 as e = 0) are brought to the same
 \* encoding before comparison, so that JSON equality is equality of VALUES.
+FmtVar(d) == IF "v" \in DOMAIN d THEN d.v ELSE ""       \* variant id of a "fmt" document ("" = the canonical one)
 RECURSIVE Pow2(_)
 Pow2(n) == IF n = 0 THEN 1 ELSE 2 * Pow2(n - 1)
 CanonNum(x) == IF x.t = "big" /\ x.e <= 16 THEN [t |-> "num", h |-> (x.sg * Pow2(x.e) + x.o) * 4] ELSE x
@@ -73,7 +74,7 @@ JEq(a0, b0) ==
        [] a.t = "num"  -> a.h = b.h
        [] a.t = "big"  -> a.e = b.e /\ a.sg = b.sg /\ a.o = b.o
        [] a.t = "str"  -> a.s = b.s
-       [] a.t = "fmt"  -> a.f = b.f
+       [] a.t = "fmt"  -> a.f = b.f /\ FmtVar(a) = FmtVar(b)
        [] a.t = "arr"  -> /\ Len(a.a) = Len(b.a)
                           /\ \A i \in 1..Len(a.a) : JEq(a.a[i], b.a[i])
        [] a.t = "obj"  -> /\ ObjKeys(a) = ObjKeys(b)
@@ -108,6 +109,12 @@ PatMatch(p, cs) ==
 \* string formats the tool maps to dedicated Go types
 Formats == {"date", "time", "date-time", "ipv4", "ipv6"}
 JFmt(f) == [t |-> "fmt", f |-> f]
+\* further canonical strings of a format, by variant id (texts in harness/internal/abs: years below 1000, a leap day,
+\* midnight, a numeric zone offset, fractional seconds, the all-zero / all-one / loopback addresses)
+JFmtV(f, v) == [t |-> "fmt", f |-> f, v |-> v]
+FmtVariants(f) == CASE f = "date" -> {"y0987", "y0001", "leap"} [] f = "time" -> {"midnight", "lastsec"}
+                    [] f = "date-time" -> {"offset", "frac", "y0987"} [] f = "ipv4" -> {"zero", "bcast"}
+                    [] f = "ipv6" -> {"loop", "long"}
 
 (* ---------- three-valued logic ---------- *)
 Acc == "acc"  Rej == "rej"  Un == "un"
